@@ -69,6 +69,16 @@ func safeReadXml(b []byte) (c xsel.Cursor, err error) {
 func c09Case(r *evid.Run, tier string, idx int, g *rng.R) {
 	o := adoc.GenOpts{MinNodes: 2, MaxNodes: 40, NS: g.Intn(3), Misc: true, Weird: g.P(20), Lang: g.P(20), Unicode: g.P(50), XMLSafe: true, NoAdjText: true}
 	d := adoc.Generate(g, o)
+	if g.P(5) {
+		// sizes around the usual strategy thresholds: many attributes / own namespace declarations / children
+		adoc.ManyAttrs(g, d, rng.Pick(g, []int{5, 8, 9, 12, 16, 17, 33, 40}))
+		adoc.ManyDecls(g, d, rng.Pick(g, []int{3, 7, 8, 9, 12, 20}))
+		if g.Bool() {
+			adoc.Widen(g, d, rng.Pick(g, adoc.Thresholds), true)
+		}
+		d.Finish()
+		r.Count("cases_with_threshold_sizes", 1)
+	}
 	// XML cannot carry '#' names, empty comments ending in '-', etc.: sanitise
 	for _, n := range d.All {
 		if strings.ContainsAny(n.Local, "#") {
